@@ -5,7 +5,7 @@
 From Coq Require Import List NArith ZArith Bool.
 From Conductor Require Import Lib.Regex Lib.RegexBisim Lib.PyRegex Lib.Str Lib.SchemaTypes
   Gen.Generated Model.Ident Model.Schema Model.Group
-  Proofs.IdentSpec Proofs.IdentProofs Proofs.SchemaSpec Proofs.SchemaProofs Proofs.GroupProofs.
+  Proofs.IdentSpec Proofs.IdentProofs Proofs.SchemaSpec Proofs.SchemaProofs Proofs.GroupProofs Proofs.GenTieGroup.
 From Conductor Require Props.C20.
 Require Coq.Strings.String.
 Import Coq.Strings.String.StringSyntax.
@@ -64,6 +64,38 @@ Proof.
   subst. apply res_agree_refl.
 Qed.
 Print Assumptions C19_graph.
+
+(* Tie to the sources, re-checked on every run: the function the theorems above are about (Model/Group.v group_loop /
+   group_impl, a transcription of run_experiment_group) is the function of the working tree -- harness/gen_generated.py
+   group_item compares the statement list of run_experiment_group with the transcribed one (three accumulators; ONE loop over
+   `experiments` with the instance test, the duplicate test, the name remembered, the dependency list, the run_experiment call
+   with the instance's own name / args / options / parallelizable, the identifier appended and remembered; TypeError mapped to
+   ExperimentGroupInvalidExperimentInstance; combine(name, deps=identifiers) at the end), and the chain test is the expression
+   TRANSLATED from it.  A loop split in two (seed C14/i), a normalised duplicate key (C19/l), swapped parameters or a filtered
+   member list break these obligations. *)
+Theorem C19_group_body_is_the_sources :
+  gen_group_body_is_the_transcribed_one = true /\
+  forall (S : Type) (h : call -> S -> result S) run chain task_deps x ms seen prev rel st,
+  py_in (i_name x) seen = Some false ->
+  group_loop h run chain task_deps (MInst x :: ms) seen prev rel st =
+  let experiment_deps :=
+    if gen_group_chains chain (opt_some prev)
+    then match prev with
+         | Some p => match spread task_deps with Some l => Some (VList (l ++ [VStr p])) | None => None end
+         | None => Some task_deps
+         end
+    else Some task_deps in
+  match experiment_deps with
+  | None => Err EGroupInvalidInstance
+  | Some deps =>
+    bind (h (experiment_call x run deps) st) (fun st' =>
+      match i_name x with
+      | VStr s => let id := COLON :: s in group_loop h run chain task_deps ms (seen ++ [i_name x]) (Some id) (rel ++ [VStr id]) st'
+      | _ => Err EGroupInvalidInstance
+      end)
+  end.
+Proof. split; [reflexivity|exact group_loop_step_tie]. Qed.
+Print Assumptions C19_group_body_is_the_sources.
 
 (* non-vacuity: the documented example is of the documented form, its expansion is accepted and
    loads to the three documented tasks *)
